@@ -168,12 +168,14 @@ def _reapply_behaviour(ctx):
         S = ix.cls("fdtdx.objects.object.SimulationObject")
         others = [Obj(S, dict(name=n, apply=mk_apply(n)), n) for n in ("srcA", "srcB", "srcC", "srcD", "srcE", "srcF")]
 
+        vol_ref = [None]
+
         def gate(it_, callee, args, kwargs):
             # a one-argument predicate of SimulationObject asked of a device about another object: run the repo's own
             # method on the stand-in boxes
             from ..values import Bound
 
-            if isinstance(callee, Bound) and isinstance(callee.self_obj, Obj) and callee.self_obj in devices and len(args) == 1 and not kwargs and isinstance(args[0], Obj) and callee.func.qualname.startswith(S.qualname + "."):
+            if isinstance(callee, Bound) and isinstance(callee.self_obj, Obj) and callee.self_obj in devices and len(args) == 1 and not kwargs and isinstance(args[0], Obj) and (args[0] in devices or args[0] in others or args[0] is vol_ref[0]):
                 me, other = callee.self_obj.attrs.get("name"), args[0].attrs.get("name", "volume")
                 if other not in boxes:
                     return False  # the volume: its apply is not the subject
@@ -185,6 +187,7 @@ def _reapply_behaviour(ctx):
         it.call_hooks.insert(0, gate)
         objs = sc.objects(devices + others)
         vol = objs.attrs["object_list"][0]
+        vol_ref[0] = vol
         vol.attrs["apply"] = mk_apply(vol.attrs.get("name", "volume"))
         objs_by_name = {o.attrs.get("name", "volume"): o for o in objs.attrs["object_list"]}
         poles, comps, ccomps, _ = s.disp
